@@ -1,8 +1,10 @@
 (* C18: non-vacuity — concrete non-trivial runs satisfying the hypotheses of each theorem, and runs
    showing that the guards the theorems rest on are what makes them true. *)
-From Coq Require Import List Arith Bool String.
+From Coq Require Import List Arith NArith Bool String.
 Import ListNotations.
 Require Import Verif.Model.C18_Types Verif.Model.C18 Verif.Model.C18_Sync Verif.Model.C18_Check.
+
+Open Scope N_scope.
 
 (* Three builders 1,2,3 with a cycle 1 -> 2 -> 3 -> 1 (cycles are permitted), shared functions 10,20,30.
    Builder 1 marks done and waits; the waiter has to cross all edges and blocks until 2 and 3 are done. *)
@@ -16,16 +18,18 @@ Definition ex_cycle : list label :=
     LWaitClosed 1 1;
     (* a second waiter on 2 finds 1 transitively done and skips it *)
     LWaitStart 2 2; LWaitObserve 2 2 [3]; LWaitObserve 2 3 [1]; LWaitSkip 2 1; LWaitClosed 2 2;
+    (* the order in which enqueued tasks are taken is free: a waiter on 3 sees edges [1] then skips 1 *)
+    LWaitStart 4 3; LWaitObserve 4 3 [1]; LWaitSkip 4 1; LWaitClosed 4 3;
     (* a third one returns on the fast path *)
     LWaitStart 3 1; LWaitFast 3 1;
     (* afterwards addEdge to a transitively done task is skipped *)
     LAddSkip 4 1 ].
 
-Example ex_cycle_runs : first_rejected init ex_cycle 0 = None.
+Example ex_cycle_runs : first_rejected init ex_cycle 0%nat = None.
 Proof. vm_compute. reflexivity. Qed.
 Example ex_cycle_returned :
   match run init ex_cycle with
-  | Some s => match waiter s 1 with Some ws => w_closed ws && Nat.eqb (List.length (w_work ws)) 3 | None => false end
+  | Some s => match waiter s 1 with Some ws => w_closed ws && Nat.eqb (List.length (w_work ws)) 3%nat | None => false end
   | None => false
   end = true.
 Proof. vm_compute. reflexivity. Qed.
@@ -35,26 +39,28 @@ Proof. vm_compute. reflexivity. Qed.
 (* the guards are needed: a wait that returns before following the edge to 2 is not a run of the model ... *)
 Definition ex_early : list label :=
   [ LAddEdge 1 2; LMarkDone 1; LWaitStart 1 1; LWaitObserve 1 1 [2]; LWaitClosed 1 1 ].
-Example ex_early_rejected : first_rejected init ex_early 0 = Some (4, LWaitClosed 1 1).
+Example ex_early_rejected : first_rejected init ex_early 0%nat = Some (4%nat, LWaitClosed 1 1).
 Proof. vm_compute. reflexivity. Qed.
 (* ... and the property predicate flags it: task 2 is reachable and not done *)
-Example ex_early_violation : trace_violations ex_early = [VUndone 4 1 1 [2]].
+Example ex_early_violation : trace_violations ex_early = [VUndone 4%nat 1 1 [2]].
 Proof. vm_compute. reflexivity. Qed.
 (* an edge added after markDone is rejected (and can be missed by a waiter that already read the edges) *)
 Definition ex_late_edge : list label :=
   [ LMarkDone 1; LWaitStart 1 1; LWaitObserve 1 1 []; LAddEdge 1 2; LWaitClosed 1 1 ].
-Example ex_late_edge_rejected : first_rejected init ex_late_edge 0 = Some (3, LAddEdge 1 2).
+Example ex_late_edge_rejected : first_rejected init ex_late_edge 0%nat = Some (3%nat, LAddEdge 1 2).
 Proof. vm_compute. reflexivity. Qed.
 Example ex_late_edge_violation :
-  trace_violations ex_late_edge = [VEdgeAfterDone 3 1 2; VUndone 4 1 1 [2]].
+  trace_violations ex_late_edge = [VEdgeAfterDone 3%nat 1 2; VUndone 4%nat 1 1 [2]].
 Proof. vm_compute. reflexivity. Qed.
 (* markDone before the shared function is built is rejected, and the waiter then sees an unbuilt function *)
 Definition ex_early_done : list label :=
   [ LEnqueue 1 10; LMarkDone 1; LWaitStart 1 1; LWaitObserve 1 1 []; LWaitClosed 1 1; LBuilt 10 ].
-Example ex_early_done_rejected : first_rejected init ex_early_done 0 = Some (1, LMarkDone 1).
+Example ex_early_done_rejected : first_rejected init ex_early_done 0%nat = Some (1%nat, LMarkDone 1).
 Proof. vm_compute. reflexivity. Qed.
-Example ex_early_done_violation : trace_violations ex_early_done = [VUnbuilt 4 1 1 [10]].
+Example ex_early_done_violation : trace_violations ex_early_done = [VUnbuilt 4%nat 1 1 [10]].
 Proof. vm_compute. reflexivity. Qed.
+
+Close Scope N_scope.
 
 (* once-guard: three interleaved calls, one runs the body, all return after it is complete *)
 Definition ex_once : list olabel :=
